@@ -82,6 +82,8 @@ def _edge_loops(repo, f, depth=0):
             # … or a store keyed by / of the producer (helper building the predecessor collection)
             edge += [st for b in lp.body for st in ast.walk(b) if isinstance(st, ast.Assign) and any(
                 isinstance(t, ast.Subscript) and mentions_producer(t.slice) for t in st.targets)]
+            # … or the producer is handed on to the recording loop by a generator (`yield <input>.producer()`)
+            edge += [y for b in lp.body for y in ast.walk(b) if isinstance(y, ast.Yield) and y.value is not None and mentions_producer(y.value)]
             if not edge:
                 continue
             ec = edge[0]
@@ -148,6 +150,16 @@ def run(ctx):
             h = gcls0.methods[c.func.attr]
             if not ef.summary(h).mods and h not in helpers:
                 helpers.append((h, c))
+    # … and so are private read-only functions of the module that sort() (or such a phase) calls with a node, a value or a graph
+    # (a generator over the candidates for predecessors)
+    mod0 = repo.module(CORE)
+    for host in [f] + [h for h, _c in helpers]:
+        for c in calls_in(host):
+            d = dotted_of(c.func) or ""
+            g_ = mod0.functions.get(d) if d.startswith("_") and "." not in d else None
+            if g_ is not None and not isinstance(g_.node, ast.Lambda) and not ef.summary(g_).mods and all(g_ is not h for h, _ in helpers) and any(
+                    isinstance(x, ast.Attribute) and x.attr in ("attributes", "inputs") for x in ast.walk(g_.node)):
+                helpers.append((g_, c))
     parts = [f] + [h for h, _c in helpers]
     # R1
     used: dict = {}
@@ -249,70 +261,79 @@ def run(ctx):
                   how="control conditions of the edge-recording statement inside the loop over node.inputs (in sort or in the helper it iterates); exits before it",
                   construct="producer edge recorded conditionally")
     ctx.require(n_edges >= 1, "Graph.sort: loop recording the producers of node.inputs not found")
-    # R8: the local edge recorder(s)
+    # R8: where predecessors are recorded (a local function called per candidate, or the body of the loop over the candidates)
+    from ..effects import _lookup_bindings
+
     n8 = 0
-    recorders = set()
-    for p_ in parts:
-        for q in [p_] + list(p_.nested.values()):
-            for c in calls_in(q):
-                if isinstance(c.func, ast.Name) and c.func.id in p_.nested and len(c.args) == 2:
-                    recorders.add(p_.nested[c.func.id])
-    for r in sorted(recorders, key=lambda x: x.key):
-        if len(r.params) != 2:
-            continue
-        pred = r.params[1]
+    for q in [x for p_ in parts for x in [p_] + list(p_.nested.values())]:
+        looked_up = _lookup_bindings(q.node)  # locals bound once to <table>.get(<key>)
 
-        def is_record(x) -> bool:
-            # an update of a table: <table>[…].append(…) / <table>[…] += … / <table>[…] = …
-            if isinstance(x, ast.Call) and isinstance(x.func, ast.Attribute) and x.func.attr in ("append", "add", "appendleft") and isinstance(x.func.value, ast.Subscript):
-                return True
-            if isinstance(x, ast.AugAssign) and isinstance(x.target, ast.Subscript):
-                return True
-            return isinstance(x, ast.Assign) and any(isinstance(t, ast.Subscript) for t in x.targets)
+        def through_table(e) -> bool:
+            while isinstance(e, ast.Attribute):
+                e = e.value
+            return isinstance(e, ast.Subscript) or (isinstance(e, ast.Name) and e.id in looked_up)
 
-        def atom(t, positive: bool) -> bool:
-            if isinstance(t, ast.Compare) and len(t.ops) == 1 and isinstance(t.left, ast.Name) and t.left.id == pred:
-                if isinstance(t.ops[0], ast.IsNot if positive else ast.Is) and isinstance(t.comparators[0], ast.Constant) and t.comparators[0].value is None:
-                    return True
-                if isinstance(t.ops[0], ast.In if positive else ast.NotIn) and isinstance(t.comparators[0], (ast.Name, ast.Attribute)):
-                    return True
-            return False
-
-        def allowed(t, positive: bool) -> bool:
-            """positive: a test under which the edge IS recorded (`p is not None and p in table`); otherwise a test under which
-            the recorder is left (`p is None or p not in table`)."""
-            if isinstance(t, ast.UnaryOp) and isinstance(t.op, ast.Not):
-                return allowed(t.operand, not positive)
-            if isinstance(t, ast.BoolOp) and isinstance(t.op, ast.And if positive else ast.Or):
-                return all(allowed(v, positive) for v in t.values)
-            return atom(t, positive)
-
-        records = [x for x in own_nodes(r.node) if is_record(x)]
-        if not records:
-            continue
-        n8 += 1
-        bad = None
+        # the recording statement: <table>[<child>]… .append(<predecessor>)
+        records = [x for x in own_nodes(q.node) if isinstance(x, ast.Call) and isinstance(x.func, ast.Attribute) and x.func.attr in ("append", "add", "appendleft")
+                   and through_table(x.func.value) and len(x.args) == 1 and isinstance(x.args[0], ast.Name)
+                   and any(isinstance(y, (ast.AugAssign,)) and any(isinstance(z, ast.Name) and z.id == x.args[0].id for z in ast.walk(y.target)) or (
+                       isinstance(y, ast.AugAssign) and isinstance(y.target, ast.Attribute) and isinstance(y.target.value, ast.Name) and y.target.value.id in looked_up)
+                       for y in own_nodes(q.node))]
         for x in records:
+            pred = x.args[0].id
+
+            def atom(t, positive: bool) -> bool:
+                # `rec is None` for `rec = <table>.get(<pred>)` is `<pred> not in <table>`
+                if isinstance(t, ast.Compare) and len(t.ops) == 1 and isinstance(t.left, ast.Name) and t.left.id in looked_up and isinstance(t.comparators[0], ast.Constant) \
+                        and t.comparators[0].value is None and isinstance(looked_up[t.left.id][1], ast.Name) and looked_up[t.left.id][1].id == pred:
+                    return isinstance(t.ops[0], ast.IsNot if positive else ast.Is)
+                if isinstance(t, ast.Compare) and len(t.ops) == 1 and isinstance(t.left, ast.Name) and t.left.id == pred:
+                    if isinstance(t.ops[0], ast.IsNot if positive else ast.Is) and isinstance(t.comparators[0], ast.Constant) and t.comparators[0].value is None:
+                        return True
+                    if isinstance(t.ops[0], ast.In if positive else ast.NotIn) and isinstance(t.comparators[0], (ast.Name, ast.Attribute)):
+                        return True
+                return False
+
+            def allowed(t, positive: bool) -> bool:
+                """positive: a test under which the edge IS recorded (`p is not None and p in table`); otherwise a test under which
+                the candidate is passed over (`p is None or p not in table`)."""
+                if isinstance(t, ast.UnaryOp) and isinstance(t.op, ast.Not):
+                    return allowed(t.operand, not positive)
+                if isinstance(t, ast.BoolOp) and isinstance(t.op, ast.And if positive else ast.Or):
+                    return all(allowed(v, positive) for v in t.values)
+                return atom(t, positive)
+
+            # tests that mention the candidate between its binding (parameter / loop variable) and the recording
+            scope = q.node
+            par = getattr(x, "_parent", None)
+            while par is not None and par is not q.node:
+                if isinstance(par, ast.For) and any(isinstance(y, ast.Name) and y.id == pred for y in ast.walk(par.target)):
+                    scope = par
+                    break
+                par = getattr(par, "_parent", None)
+            n8 += 1
+            bad = None
             child, par = x, getattr(x, "_parent", None)
             while par is not None:
                 for fld in ("body", "orelse"):
                     blk = getattr(par, fld, None)
                     if isinstance(blk, list) and child in blk:
                         for st in blk[: blk.index(child)]:
-                            if isinstance(st, ast.If) and not st.orelse and st.body and isinstance(st.body[-1], (ast.Return, ast.Raise)) and not allowed(st.test, False):
+                            if isinstance(st, ast.If) and not st.orelse and st.body and isinstance(st.body[-1], (ast.Return, ast.Raise, ast.Continue, ast.Break)) \
+                                    and not allowed(st.test, False):
                                 bad = bad or st
                         if isinstance(par, ast.If) and not allowed(par.test, fld == "body"):
                             bad = bad or par
-                if par is r.node:
+                if par is scope:
                     break
                 child, par = par, getattr(par, "_parent", None)
-        ctx.check("R8", f"{r.local}: an edge is dropped only for a missing or foreign producer", bad is None, r, bad if bad is not None else records[0],
-                  f"`{norm(bad.test)[:80] if bad is not None else ''}` decides whether the predecessor is counted, for a reason other than `{pred} is None` / `{pred} not in <traversed nodes>`: "
-                  "the dependency is real but invisible to the sort - a node that reads its own output (a cycle of length one) is accepted and the graph is "
-                  "reordered instead of being refused unchanged",
-                  how="tests that govern the table updates of the local function that records predecessors (two parameters: child, predecessor): guard clauses before them and ifs around them",
-                  construct=f"edge dropped by {norm(bad.test)[:60] if bad is not None else ''}")
-    ctx.require(n8 >= 1, "the local function through which Graph.sort records predecessors was not found")
+            ctx.check("R8", f"{q.local}: an edge is dropped only for a missing or foreign producer", bad is None, q, bad if bad is not None else x,
+                      f"`{norm(bad.test)[:80] if bad is not None else ''}` decides whether the predecessor is counted, for a reason other than `{pred} is None` / `{pred} not in <traversed nodes>`: "
+                      "the dependency is real but invisible to the sort - a node that reads its own output (a cycle of length one) is accepted and the graph is "
+                      "reordered instead of being refused unchanged",
+                      how="tests that govern the statement recording a predecessor (between the binding of the candidate and the recording): guard clauses before it and ifs around it",
+                      construct=f"edge dropped by {norm(bad.test)[:60] if bad is not None else ''}")
+    ctx.require(n8 >= 1, "the statement through which Graph.sort records predecessors was not found")
     # R7
     from ..shared import ref_attr_guards
 
@@ -360,6 +381,19 @@ def run(ctx):
             kinds = {y.attr for y in ast.walk(br.test) if isinstance(y, ast.Attribute) and y.attr in ("GRAPH", "GRAPHS") and (dotted_of(y) or "").endswith(f"AttributeType.{y.attr}")}
             if not kinds:
                 continue
+            # a generator hands every node of the subgraph on with `yield from <graph>` (the recording loop consumes them)
+            for yf in [x for st in br.body for x in ast.walk(st) if isinstance(x, ast.YieldFrom)]:
+                n_nested += 1
+                bad = None
+                par = getattr(yf, "_parent", None)
+                while par is not None and par is not br:
+                    if isinstance(par, (ast.If, ast.While, ast.Try, ast.IfExp, ast.BoolOp, ast.Match)):
+                        bad = bad or par
+                    par = getattr(par, "_parent", None)
+                ctx.check("R6", f"{fn.local}: {'/'.join(sorted(kinds))} branch hands on every nested node (`{norm(yf)[:40]}`)", bad is None, fn, bad if bad is not None else yf,
+                          f"the nodes of the subgraph are handed to the recording loop only when `{norm(bad.test)[:70] if isinstance(bad, (ast.If, ast.While, ast.IfExp)) else norm(bad)[:70] if bad is not None else ''}` "
+                          "allows it: a nested node without the edge does not hold its outer producers before the owning node",
+                          how="control conditions between the GRAPH/GRAPHS dispatch and the `yield from`", construct="nested-node edge recorded conditionally")
             loops = [x for st in br.body for x in ast.walk(st) if isinstance(x, ast.For) and isinstance(x.target, ast.Name)]
             for lp in loops:
                 edge = [c for st in lp.body for c in ast.walk(st) if isinstance(c, ast.Call) and any(isinstance(a, ast.Name) and a.id == lp.target.id for a in c.args)
@@ -407,6 +441,11 @@ def run(ctx):
         # loop variables over a node's predecessors() are producers as well
         prod |= {x.target.id for x in own_nodes(g.node) if isinstance(x, ast.For) and isinstance(x.target, ast.Name) and isinstance(x.iter, ast.Call)
                  and isinstance(x.iter.func, ast.Attribute) and x.iter.func.attr == "predecessors"}
+        # … and over a read-only helper of the sort that yields producers
+        yielders = {p_.name for p_ in parts if any(isinstance(y, (ast.Yield, ast.YieldFrom)) for y in ast.walk(p_.node))
+                    and any(isinstance(c, ast.Call) and isinstance(c.func, ast.Attribute) and c.func.attr == "producer" for c in ast.walk(p_.node))}
+        prod |= {x.target.id for x in own_nodes(g.node) if isinstance(x, ast.For) and isinstance(x.target, ast.Name) and isinstance(x.iter, ast.Call)
+                 and (dotted_of(x.iter.func) or "").split(".")[-1] in yielders}
         # parameters of nested helpers that receive a producer
         if g.parent is not None:
             outer_loop_prod = {x.target.id for x in own_nodes(g.parent.node) if isinstance(x, ast.For) and isinstance(x.target, ast.Name) and isinstance(x.iter, ast.Call)
@@ -421,6 +460,9 @@ def run(ctx):
                             prod.add(g.params[i])
         if not prod:
             continue
+        # what a table answers for a producer (`rec = table.get(producer)`) stands for the producer's membership in it
+        prod |= {a.targets[0].id for a in own_nodes(g.node) if isinstance(a, ast.Assign) and isinstance(a.targets[0], ast.Name) and isinstance(a.value, ast.Call)
+                 and isinstance(a.value.func, ast.Attribute) and a.value.func.attr == "get" and a.value.args and isinstance(a.value.args[0], ast.Name) and a.value.args[0].id in prod}
         for cmp_ in (x for x in own_nodes(g.node) if isinstance(x, ast.Compare)):
             sides = [cmp_.left, *cmp_.comparators]
             if not any(isinstance(y, ast.Name) and y.id in prod for sd in sides for y in ast.walk(sd)):
